@@ -202,6 +202,9 @@ func alphaKind[K chars](name string, slice bool) *Kind[K] {
 			}
 			return out
 		},
+		Deepen: func(r *rng.R, a K) K {
+			return K(cat([]byte(a), []byte{rng.Pick(r, smallAlphabet)}, fromAlphabet(r, tinyAlphabet, r.Intn(2))))
+		},
 		Enc:      func(a K) []byte { return cat([]byte(a), []byte{0}) },
 		Storable: nulFree[K],
 		HasRange: true,
